@@ -122,6 +122,8 @@ Inductive rcls := RNil | RCanceled | ROther.
 
 Inductive ev :=
 | ESubCall | ECloseCall | ECancelCall          (* the application calls in *)
+| EPollCall (answers : bool)                   (* Poll is called; will the target answer the round? *)
+| EPollRet (ok : bool)                         (* Poll returns (nil?) *)
 | EFactory (k : nat)                           (* transport constructor, attempt k *)
 | EImplSub (k : nat)                           (* Impl.Subscribe of attempt k *)
 | ERecv (k i : nat)                            (* Impl.Recv number i of attempt k *)
@@ -149,6 +151,9 @@ Inductive spc :=
 Inductive cpc := CIdle | CLock | CBase | CBaseHold | CWait | CRet | CFin.
 Inductive xpc := XIdle | XCalled | XFin.
 Inductive sdone := SDNil | SDOpen | SDClosed.
+(** the poller: a goroutine calling Poll() -- BaseClient.Poll takes the current
+    transport under c.mu and runs one read round on it, outside any lock *)
+Inductive ppc := PIdle | PImpl (a : bool) | PRound (a : bool) (j : nat) | PClose (j : nat) | PRet (ok : bool).
 Inductive oimpl := NoImpl | Impl (j : nat).   (* BaseClient.clientImpl: nil / the Impl of attempt j *)
 
 Record st := mk {
@@ -159,34 +164,45 @@ Record st := mk {
   ctx_r : bool; ctx_p : bool; ncancel : nat; nsleep : nat;
   b_closed : bool; b_impl : oimpl; b_mu : bool;
   c_done : bool   (* ghost: reconnect -- some Close call has returned; bare client -- a Close
-                     call made after the current Subscribe call re-opened the client returned nil *) }.
+                     call made after the current Subscribe call re-opened the client returned nil *) ;
+  p_pc : ppc;     (* the poller *)
+  p_wake : bool   (* the transport the poll round reads from has been closed *) }.
 
 Definition init : st :=
-  mk SIdle 0 false false false CIdle false false XIdle false false SDNil false false 0 0 false NoImpl false false.
+  mk SIdle 0 false false false CIdle false false XIdle false false SDNil false false 0 0 false NoImpl false false PIdle false.
 
 Definition cancelled (s : st) : bool := ctx_r s || ctx_p s.
 
 (** field updates *)
-Definition set_spc v s := let '(mk a b c d e f g h i j k l m n o p q r t u) := s in mk v b c d e f g h i j k l m n o p q r t u.
-Definition set_att v s := let '(mk a b c d e f g h i j k l m n o p q r t u) := s in mk a v c d e f g h i j k l m n o p q r t u.
-Definition set_conn v s := let '(mk a b c d e f g h i j k l m n o p q r t u) := s in mk a b v d e f g h i j k l m n o p q r t u.
-Definition set_curcl v s := let '(mk a b c d e f g h i j k l m n o p q r t u) := s in mk a b c v e f g h i j k l m n o p q r t u.
-Definition set_err v s := let '(mk a b c d e f g h i j k l m n o p q r t u) := s in mk a b c d v f g h i j k l m n o p q r t u.
-Definition set_cpc v s := let '(mk a b c d e f g h i j k l m n o p q r t u) := s in mk a b c d e v g h i j k l m n o p q r t u.
-Definition set_cwait v s := let '(mk a b c d e f g h i j k l m n o p q r t u) := s in mk a b c d e f v h i j k l m n o p q r t u.
-Definition set_cok v s := let '(mk a b c d e f g h i j k l m n o p q r t u) := s in mk a b c d e f g v i j k l m n o p q r t u.
-Definition set_xpc v s := let '(mk a b c d e f g h i j k l m n o p q r t u) := s in mk a b c d e f g h v j k l m n o p q r t u.
-Definition set_rclosed v s := let '(mk a b c d e f g h i j k l m n o p q r t u) := s in mk a b c d e f g h i v k l m n o p q r t u.
-Definition set_hascancel v s := let '(mk a b c d e f g h i j k l m n o p q r t u) := s in mk a b c d e f g h i j v l m n o p q r t u.
-Definition set_subdone v s := let '(mk a b c d e f g h i j k l m n o p q r t u) := s in mk a b c d e f g h i j k v m n o p q r t u.
-Definition set_ctxr v s := let '(mk a b c d e f g h i j k l m n o p q r t u) := s in mk a b c d e f g h i j k l v n o p q r t u.
-Definition set_ctxp v s := let '(mk a b c d e f g h i j k l m n o p q r t u) := s in mk a b c d e f g h i j k l m v o p q r t u.
-Definition set_ncancel v s := let '(mk a b c d e f g h i j k l m n o p q r t u) := s in mk a b c d e f g h i j k l m n v p q r t u.
-Definition set_nsleep v s := let '(mk a b c d e f g h i j k l m n o p q r t u) := s in mk a b c d e f g h i j k l m n o v q r t u.
-Definition set_bclosed v s := let '(mk a b c d e f g h i j k l m n o p q r t u) := s in mk a b c d e f g h i j k l m n o p v r t u.
-Definition set_bimpl v s := let '(mk a b c d e f g h i j k l m n o p q r t u) := s in mk a b c d e f g h i j k l m n o p q v t u.
-Definition set_bmu v s := let '(mk a b c d e f g h i j k l m n o p q r t u) := s in mk a b c d e f g h i j k l m n o p q r v u.
-Definition set_cdone v s := let '(mk a b c d e f g h i j k l m n o p q r t u) := s in mk a b c d e f g h i j k l m n o p q r t v.
+Definition set_spc v s := let '(mk a b c d e f g h i j k l m n o p q r t u w y) := s in mk v b c d e f g h i j k l m n o p q r t u w y.
+Definition set_att v s := let '(mk a b c d e f g h i j k l m n o p q r t u w y) := s in mk a v c d e f g h i j k l m n o p q r t u w y.
+Definition set_conn v s := let '(mk a b c d e f g h i j k l m n o p q r t u w y) := s in mk a b v d e f g h i j k l m n o p q r t u w y.
+Definition set_curcl v s := let '(mk a b c d e f g h i j k l m n o p q r t u w y) := s in mk a b c v e f g h i j k l m n o p q r t u w y.
+Definition set_err v s := let '(mk a b c d e f g h i j k l m n o p q r t u w y) := s in mk a b c d v f g h i j k l m n o p q r t u w y.
+Definition set_cpc v s := let '(mk a b c d e f g h i j k l m n o p q r t u w y) := s in mk a b c d e v g h i j k l m n o p q r t u w y.
+Definition set_cwait v s := let '(mk a b c d e f g h i j k l m n o p q r t u w y) := s in mk a b c d e f v h i j k l m n o p q r t u w y.
+Definition set_cok v s := let '(mk a b c d e f g h i j k l m n o p q r t u w y) := s in mk a b c d e f g v i j k l m n o p q r t u w y.
+Definition set_xpc v s := let '(mk a b c d e f g h i j k l m n o p q r t u w y) := s in mk a b c d e f g h v j k l m n o p q r t u w y.
+Definition set_rclosed v s := let '(mk a b c d e f g h i j k l m n o p q r t u w y) := s in mk a b c d e f g h i v k l m n o p q r t u w y.
+Definition set_hascancel v s := let '(mk a b c d e f g h i j k l m n o p q r t u w y) := s in mk a b c d e f g h i j v l m n o p q r t u w y.
+Definition set_subdone v s := let '(mk a b c d e f g h i j k l m n o p q r t u w y) := s in mk a b c d e f g h i j k v m n o p q r t u w y.
+Definition set_ctxr v s := let '(mk a b c d e f g h i j k l m n o p q r t u w y) := s in mk a b c d e f g h i j k l v n o p q r t u w y.
+Definition set_ctxp v s := let '(mk a b c d e f g h i j k l m n o p q r t u w y) := s in mk a b c d e f g h i j k l m v o p q r t u w y.
+Definition set_ncancel v s := let '(mk a b c d e f g h i j k l m n o p q r t u w y) := s in mk a b c d e f g h i j k l m n v p q r t u w y.
+Definition set_nsleep v s := let '(mk a b c d e f g h i j k l m n o p q r t u w y) := s in mk a b c d e f g h i j k l m n o v q r t u w y.
+Definition set_bclosed v s := let '(mk a b c d e f g h i j k l m n o p q r t u w y) := s in mk a b c d e f g h i j k l m n o p v r t u w y.
+Definition set_bimpl v s := let '(mk a b c d e f g h i j k l m n o p q r t u w y) := s in mk a b c d e f g h i j k l m n o p q v t u w y.
+Definition set_bmu v s := let '(mk a b c d e f g h i j k l m n o p q r t u w y) := s in mk a b c d e f g h i j k l m n o p q r v u w y.
+Definition set_cdone v s := let '(mk a b c d e f g h i j k l m n o p q r t u w y) := s in mk a b c d e f g h i j k l m n o p q r t v w y.
+Definition set_ppc v s := let '(mk a b c d e f g h i j k l m n o p q r t u w y) := s in mk a b c d e f g h i j k l m n o p q r t u v y.
+Definition set_pwake v s := let '(mk a b c d e f g h i j k l m n o p q r t u w y) := s in mk a b c d e f g h i j k l m n o p q r t u w v.
+
+(** the transport of attempt [j] is being closed: a poll round reading from it wakes up *)
+Definition pwake (j : nat) (s : st) : st :=
+  match p_pc s with
+  | PRound _ j' => if Nat.eqb j j' then set_pwake true s else s
+  | _ => s
+  end.
 
 (** [p.cancel()]: cancels the derived context (idempotent); the ghost counter
     [ncancel] counts the calls that actually cancelled the current context. *)
@@ -227,14 +243,14 @@ Section Model.
         if a_sub (sc k) && negb (cancelled s)
         then [(None, set_spc SInstall s)]
         else [(None, set_spc SSubFailClose s)]
-    | SSubFailClose => [(Some (EImplClose k), end_attempt true (set_curcl true s))]
+    | SSubFailClose => [(Some (EImplClose k), end_attempt true (set_curcl true (pwake k s)))]
     | SInstall =>
         (* c.mu.Lock(); if c.clientImpl != nil { c.clientImpl.Close() } *)
         if b_mu s then []
         else match b_impl s with
              | NoImpl =>
                  [(None, set_spc (if b_closed s then SInstClosed else SRecv 0) (set_bimpl (Impl k) s))]
-             | Impl j => [(Some (EImplClose j), set_spc SInstall2 (set_bmu true s))]
+             | Impl j => [(Some (EImplClose j), set_spc SInstall2 (set_bmu true (pwake j s)))]
              end
     | SInstall2 =>
         (* c.clientImpl = impl; closed := c.closed; c.mu.Unlock() *)
@@ -242,7 +258,7 @@ Section Model.
                         (set_bmu false (set_bimpl (Impl k) s)))]
     | SInstClosed =>
         (* closed while connecting: impl.Close(); return nil *)
-        [(Some (EImplClose k), end_attempt false (set_curcl true s))]
+        [(Some (EImplClose k), end_attempt false (set_curcl true (pwake k s)))]
     | SRecv i => [(Some (ERecv k i), set_spc (SItem i) s)]
     | SItem i =>
         match nth_error (a_items (sc k)) i with
@@ -268,7 +284,7 @@ Section Model.
         if b_mu s then []
         else if b_closed s then [(None, end_attempt false s)]
              else [(None, set_spc (SRecv (S i)) s)]
-    | SRunClose => [(Some (EImplClose k), end_attempt true (set_curcl true s))]
+    | SRunClose => [(Some (EImplClose k), end_attempt true (set_curcl true (pwake k s)))]
     | SDisc => [(Some EDisc, set_spc SCtxChk s)]
     | SCtxChk =>
         if cancelled s then [(None, set_spc SDone s)]
@@ -314,7 +330,7 @@ Section Model.
              | Impl j =>
                  [(Some (EImplClose j),
                    set_cpc CBaseHold (set_cok true (set_bmu true (set_bclosed true
-                     (if Nat.eqb j (s_att s) then set_curcl true s else s)))))]
+                     (if Nat.eqb j (s_att s) then set_curcl true (pwake j s) else pwake j s)))))]
              end
     | CBaseHold => [(None, set_cpc CWait (set_bmu false s))]
     | CWait =>
@@ -334,7 +350,32 @@ Section Model.
     | XFin => []
     end.
 
-  Definition step (s : st) : list (option ev * st) := sstep s ++ cstep s ++ xstep s.
+  (** ** the poller ([ReconnectClient.Poll] forwards to [BaseClient.Poll];
+         [CacheClient.Poll] only resets its synced channel first) *)
+  Definition pstep (s : st) : list (option ev * st) :=
+    match p_pc s with
+    | PIdle => [(Some (EPollCall true), set_ppc (PImpl true) s); (Some (EPollCall false), set_ppc (PImpl false) s)]
+    | PImpl a =>
+        (* impl, err := c.Impl() under c.mu; nil: return ErrClientInit *)
+        if b_mu s then []
+        else match b_impl s with
+             | NoImpl => [(None, set_ppc (PRet false) s)]
+             | Impl j =>
+                 (* a transport of an earlier attempt may or may not have been closed yet *)
+                 [(None, set_ppc (PRound a j) (set_pwake (if Nat.eqb j (s_att s) then s_curcl s else true) s))]
+             end
+    | PRound a j =>
+        (* impl.Poll(); run(impl): one read round, outside any lock *)
+        if a then [(None, set_ppc (PRet true) s)]            (* the target answers: ErrStopReading *)
+        else if cancelled s || p_wake s then [(None, set_ppc (PClose j) s)]   (* the stalled Recv fails *)
+             else []
+    | PClose j =>
+        (* run: impl.Close() after the failed Recv; return err *)
+        [(Some (EImplClose j), set_ppc (PRet false) (if Nat.eqb j (s_att s) then set_curcl true s else s))]
+    | PRet ok => [(Some (EPollRet ok), set_ppc PIdle s)]
+    end.
+
+  Definition step (s : st) : list (option ev * st) := sstep s ++ cstep s ++ xstep s ++ pstep s.
 
   (* DEFECT C18_1 -- fixed by /repo 4c160ca; the model above is the patched code:
      [SClear], the [closed] test at the install step, [SInstClosed], no side
